@@ -221,7 +221,8 @@ class Worker:
         if self.proc is None or self.proc.poll() is not None:
             self.stop()
             self.start()
-        line = json.dumps(job) + "\n"
+        timeout = job.get("_timeout", timeout)
+        line = json.dumps({k: v for k, v in job.items() if not k.startswith("_")}) + "\n"
         result = {}
 
         def reader():
